@@ -2,6 +2,7 @@ import Mp.CueSteps
 import Mp.Deps
 import Mp.DepsExact
 import Mp.CueDeps
+import Mp.Tree
 /-! C15 — property theorems (proved in the imported modules; statements are checked there, axioms audited here). -/
 #print axioms Deps.closure_sound
 #print axioms Deps.closure_complete
@@ -13,3 +14,13 @@ import Mp.CueDeps
 #print axioms Mp.unblocked_first_key
 #print axioms Mp.blocked_only_first_key
 #print axioms Mp.first_key_blocked
+#print axioms Mp.Tree.hasErrors_step
+#print axioms Mp.Tree.call_hasErrors
+#print axioms Mp.Tree.param_hasErrors
+#print axioms Mp.Tree.call_param_anywhere
+#print axioms Mp.Tree.logic_hasErrors
+#print axioms Mp.Tree.path_hasErrors
+#print axioms Mp.Tree.hasErrors_sound
+#print axioms Mp.Tree.hasErrors_complete
+#print axioms Mp.Tree.hasErrors_eq_anyNode
+#print axioms Mp.Tree.ident_filter_not_consulted
